@@ -17,6 +17,17 @@ type NodeBP struct {
 	Value   Str       `json:"v,omitempty"`
 	Pointer Str       `json:"p,omitempty"`
 	Kids    []*NodeBP `json:"k,omitempty"`
+	// Long: this many further bytes ('x') belong to the value (lines of 64 KiB and more
+	// without carrying them in every serialised case)
+	Long int `json:"long,omitempty"`
+}
+
+// Val is the value as it is built and rendered.
+func (n *NodeBP) Val() string {
+	if n.Long > 0 {
+		return string(n.Value) + strings.Repeat("x", n.Long)
+	}
+	return string(n.Value)
 }
 
 // ForestBP is the blueprint of a document.
@@ -85,7 +96,7 @@ func (n *NodeBP) Walk(d int, fn func(n *NodeBP, depth int)) {
 
 // Clone makes a deep copy of the blueprint.
 func (n *NodeBP) Clone() *NodeBP {
-	c := &NodeBP{Tag: n.Tag, Value: n.Value, Pointer: n.Pointer}
+	c := &NodeBP{Tag: n.Tag, Value: n.Value, Pointer: n.Pointer, Long: n.Long}
 	for _, k := range n.Kids {
 		c.Kids = append(c.Kids, k.Clone())
 	}
@@ -211,6 +222,9 @@ func Forest(o ForestOpts) *rapid.Generator[*ForestBP] {
 				nb.Value = Str("@" + rapid.SampledFrom([]string{"I1", "P1", "I2", "x y", "F1"}).Draw(t, "rolep") + "@")
 			} else if !IsRecord(nb.Tag) {
 				nb.Value = Str(Value().Draw(t, "val"))
+				if rapid.IntRange(0, 1499).Draw(t, "long") == 733 { // (not 0: rapid favours the ends of a range)
+					nb.Long = rapid.SampledFrom([]int{65535, 65536, 70000, 140000}).Draw(t, "longn")
+				}
 			}
 			if !IsRole(nb.Tag) {
 				if IsRecord(nb.Tag) {
@@ -372,7 +386,7 @@ func (f *ForestBP) Build() *Built {
 		default:
 			tag := gedcom.TagFromString(bp.Tag)
 			if f.TopDown {
-				node = gedcom.NewNode(tag, string(bp.Value), string(bp.Pointer))
+				node = gedcom.NewNode(tag, bp.Val(), string(bp.Pointer))
 				b.Nodes[bp] = node
 				if root {
 					b.Doc.AddNode(node)
@@ -386,7 +400,7 @@ func (f *ForestBP) Build() *Built {
 				for _, k := range bp.Kids {
 					build(k, holder, false)
 				}
-				node = gedcom.NewNode(tag, string(bp.Value), string(bp.Pointer), holder.Nodes()...)
+				node = gedcom.NewNode(tag, bp.Val(), string(bp.Pointer), holder.Nodes()...)
 				b.Nodes[bp] = node
 				if root {
 					b.Doc.AddNode(node)
@@ -423,8 +437,8 @@ func RenderLine(level int, n *NodeBP) string {
 		s += "@" + string(n.Pointer) + "@ "
 	}
 	s += n.Tag
-	if n.Value != "" {
-		s += " " + string(n.Value)
+	if n.Val() != "" {
+		s += " " + n.Val()
 	}
 	return s
 }
